@@ -70,7 +70,8 @@ class C06(Prop):
         mode = rng.choice(["cluster", "cluster", "same", "disjoint", "spread"])
         tb = rng.choice([Fraction(1, 64), Fraction(1, 8), Fraction(1, 2), Fraction(1), Fraction(2), Fraction(5)])
         fb = rng.choice([Fraction(1), Fraction(4), Fraction(16), Fraction(128), Fraction(2000)])
-        g1 = simple_geom(rng, t1, tmax=6, fmax=24) if mode != "spread" else simple_geom(rng, t1)
+        hk = {"holes": True} if rng.random() < 0.4 else {}
+        g1 = simple_geom(rng, t1, tmax=6, fmax=24, **hk) if mode != "spread" else simple_geom(rng, t1, **hk)
         if mode == "same" and t1 == t2:
             g2 = copy.deepcopy(g1)
         elif mode == "disjoint":
@@ -222,6 +223,13 @@ class C06(Prop):
             fail("raised", f"compute_affinity raised {o['res'][1]}: {o.get('msg', '')[:150]}", error=o["res"][1])
             return fails
         v = o["val"]
+        # two area geometries (boxes, polygons with their holes, multipolygons): intersection over union of the shapes built
+        # here directly from the case's coordinates, independently of the library's conversion code
+        from .C08 import _indep_iou
+
+        ind = _indep_iou(o["n1"], o["n2"])
+        if ind is not None and not o["val_is_nan"] and abs(float(v) - min(ind, 1.0)) > 1e-9:
+            fail("area-iou", f"affinity {float(v)!r} of two area geometries differs from their independently computed area IoU {ind!r}")
         if o["val_is_nan"] or not (0 <= v <= 1):
             fail("out-of-range", f"affinity {float(v)!r} is outside [0, 1]")
         if o["val_sym"] is None or abs(o["val_sym"] - v) > TOL:
